@@ -120,6 +120,14 @@ pub struct BinReader<'a, R: Read + Seek + ?Sized = dyn DynReadSeek + 'a> {
     reader: R,
 }
 
+/// Convert a value to the integer type of the on-disk field that stores it, reporting an error
+/// (instead of silently writing a different value) if it does not fit.
+pub fn checked_field<T: TryFrom<i64>>(emitter: &dyn Emitter, what: &str, value: i64) -> Result<T, ErrorReported> {
+    T::try_from(value).map_err(|_| emitter.as_sized().emit(error!(
+        "{what} ({value}) does not fit in the {}-bit field that stores it", 8 * std::mem::size_of::<T>(),
+    )))
+}
+
 /// Helper to simplify functions that write binary script files for Touhou.
 ///
 /// Implements [`BinWrite`] with automatic handling of diagnostics.
